@@ -122,6 +122,8 @@ class SchedPool:
 
     def __init__(self, max_workers=None, **kw):
         self.jobs = []
+        # what concurrent.futures.ThreadPoolExecutor exposes: code reading it must not fail under the stand-in
+        self._max_workers = max_workers if max_workers else min(32, (os.cpu_count() or 1) + 4)
 
     def __enter__(self):
         return self
